@@ -80,6 +80,7 @@ EDITS = {
         ("sg01", "crates/lib/mimium-lang/src/runtime/wasm.rs", "        let pos = current.pos;\n        let needed = pos + size;\n        if needed > current.data.len() {", "        let pos = current.pos;\n        let needed = pos + size + 1;\n        if needed > current.data.len() {", "verus", "wasm_state"),
         ("sg02", "crates/lib/mimium-lang/src/runtime/wasm.rs", "    // Grow data if needed\n    if needed > current.data.len() {\n        current.data.resize(needed, 0);", "    // Grow data if needed\n    if needed >= current.data.len() {\n        current.data.resize(needed + 1, 0);", "verus", "wasm_state"),
         ("sg03", "crates/lib/mimium-lang/src/runtime/wasm.rs", "        current.data[pos..pos + size].to_vec()", "        current.data[pos + 1..pos + size].to_vec()", "verus", "wasm_state"),
+        ("cs03", "crates/lib/mimium-lang/src/compiler/wasmgen.rs", "                            .resolve_mir_fn_idx(closure_ptr.as_ref())\n                            .map(|idx| self.get_mir_fn_state_size(idx))", "                            .resolve_mir_fn_idx(closure_ptr.as_ref())\n                            .map(|idx| self.get_mir_fn_state_size(idx) / 2)", "verus", "backend_state"),
         ("cs01", "crates/lib/mimium-lang/src/runtime/wasm.rs", "        cls_state.pos = 0;\n    }\n    state.state_stack.pop();", "        cls_state.pos = 0;\n    }", "verus", "wasm_state"),
         ("cs02", "crates/lib/mimium-lang/src/runtime/wasm.rs", "        .or_insert_with(|| StateStorage::with_size(state_size as usize));", "        .or_insert_with(|| StateStorage::with_size(1));", "verus", "wasm_state"),
         ("cs03", "crates/lib/mimium-lang/src/runtime/wasm.rs", "    state.state_stack.push(closure_addr);\n    // Lazily allocate", "    // Lazily allocate", "verus", "wasm_state"),
@@ -277,6 +278,7 @@ EDITS = {
         ("ss01", "crates/lib/mimium-lang/src/compiler/mirgen/convert_qualified_names.rs", "        let _ = self.local_bindings.pop();", "        let _ = self.local_bindings.pop();\n        let _ = self.local_bindings.pop();", "verus", "resolve_walk"),
         ("ss02", "crates/lib/mimium-lang/src/compiler/mirgen/convert_qualified_names.rs", "        if let Some(scope) = self.local_bindings.last_mut() {\n            scope.insert(symbol);", "        if let Some(scope) = self.local_bindings.first_mut() {\n            scope.insert(symbol);", "verus", "resolve_walk"),
         ("ss03", "crates/lib/mimium-lang/src/compiler/mirgen/convert_qualified_names.rs", "        self.local_bindings.push(HashSet::new());", "        if self.local_bindings.is_empty() { self.local_bindings.push(HashSet::new()); }", "verus", "resolve_walk"),
+        ("tl01", "crates/lib/mimium-lang/src/compiler/typing.rs", "        if !self.is_public(&name) {\n            return; // Private functions can use private types", "        if self.is_public(&name) {\n            return; // Private functions can use private types", "verus", "type_privacy"),
         ("tp01", "crates/lib/mimium-lang/src/compiler/typing.rs", "                    && let Some(&is_public) = module_info.visibility_map.get(&resolved_name)\n                    && !is_public\n                {\n                    // Type is private - report error for accessing it from outside", "                    && let Some(&is_public) = module_info.visibility_map.get(&resolved_name)\n                    && is_public\n                {\n                    // Type is private - report error for accessing it from outside", "verus", "type_privacy"),
         ("tp02", "crates/lib/mimium-lang/src/compiler/typing.rs", "                    if type_path.len() > 1 {\n                        // This is a module member type", "                    if type_path.len() > 2 {\n                        // This is a module member type", "verus", "type_privacy"),
         ("dp01", "crates/lib/mimium-lang/src/compiler/mirgen/convert_qualified_names.rs", "    let loc = ctx.make_location(e_id);\n\n    match e_id.to_expr().clone() {", "    let loc = ctx.make_location(e_id);\n    ctx.push_scope();\n\n    match e_id.to_expr().clone() {", "verus", "resolve_walk"),
